@@ -14,6 +14,7 @@ import DSV.Model.Reader
 import DSV.Model.CommitFault
 import DSV.Model.Fs
 import DSV.Model.Path
+import DSV.Model.Read
 /-!
 Line-protocol driver: one request per line on stdin, one reply per line on stdout.
 First token selects the model function.  Imports only `DSV.Model.*` (core Lean), so it links natively.
@@ -881,6 +882,22 @@ def handlePath (cmd : String) (args : List String) : String :=
       | _, _ => "bad-op"
   | _, _ => "bad-op"
 
+/-! #### read decision tree -/
+open DSV.Read in
+def handleReadOutcome (args : List String) : String :=
+  match args with
+  | [k, st, t, c] =>
+      let kk : Option Kind := match k with | "meta" => some .metadata | "mlist" => some .mlist | "manifest" => some .manifest | "data" => some .data | _ => none
+      let ss : Option Status := match st with
+        | "ok" => some .ok | "missing" => some .missing | "unparseable" => some .unparseable | "transient" => some .transient
+        | "altered" => some .altered | _ => none
+      match kk, ss with
+      | some k', some s' =>
+          match readOutcome k' s' (t = "1") (c = "1") with
+          | .same => "same" | .raise => "raise" | .different => "different"
+      | _, _ => "bad-op"
+  | _ => "bad-op"
+
 def handle (line : String) : String :=
   match splitWs line with
   | [] => "bad-op"
@@ -896,6 +913,7 @@ def handle (line : String) : String :=
     else if cmd = "cf.outcome" then handleCf args
     else if cmd = "fs.judge" then handleFsJudge args
     else if cmd.startsWith "path." then handlePath cmd args
+    else if cmd = "rd.outcome" then handleReadOutcome args
     else if cmd.startsWith "gc." then handleGc cmd args
     else if cmd = "occ.trace" then handleOcc args
     else if cmd = "create.trace" then handleCreate args
